@@ -13,9 +13,11 @@ def nodupB {α} [DecidableEq α] : List α → Bool
   | [] => true
   | a :: r => !r.contains a && nodupB r
 
+/-- the name has one of the two shapes `add_states` gives automatic triggers -/
 def isTo : EvName → Bool
   | .to _ => true
-  | _ => false
+  | .toAttr _ => true
+  | .plain _ => false
 
 /-- dict invariants of one scope's `events`: event names are keys of a dict, source keys are keys of a
 dict, every transition is filed under its own source -/
@@ -23,38 +25,27 @@ def eventsWF (evs : List Event) : Bool :=
   nodupB (evs.map (·.name)) &&
   evs.all fun e => nodupB (e.trans.map (·.1)) && e.trans.all fun kv => kv.2.all fun t => t.source == kv.1
 
-/-- no internal transition (`dest = None`) -/
-def noInternal (evs : List Event) : Bool :=
-  evs.all fun e => e.trans.all fun kv => kv.2.all fun t => t.dest.isSome
-
-/-- a state's flag survives export + import: it is `True`, or the machine's flag is not `True` -/
-def flagOK (mi : Tri) (t : Tri) : Bool := t == .yes || mi != .yes
-
 mutual
-/-- hypotheses on one state (and, recursively, its substates) for the markup round trip -/
-def stOK (mi : Tri) : St → Bool
-  | .mk _ _ _ _ ignore _ _ events children =>
-    flagOK mi ignore && eventsWF events && noInternal events && events.all (fun e => !isTo e.name) &&
-    nodupB (names children) && stsOK mi children
-def stsOK (mi : Tri) : List St → Bool
+/-- well-formedness of one state (and, recursively, its substates) for the markup round trip:
+dict invariants of its local events, no `to_…`-named local events, sibling names distinct -/
+def stOK : St → Bool
+  | .mk _ _ _ _ _ _ _ events children =>
+    eventsWF events && events.all (fun e => !isTo e.name) && nodupB (names children) && stsOK children
+def stsOK : List St → Bool
   | [] => true
-  | s :: r => stOK mi s && stsOK mi r
+  | s :: r => stOK s && stsOK r
 end
 
-/-- hypotheses of the markup round trip on a whole configuration:
-* the transition whitelist names `source` and `dest`;
-* per state: `flagOK`, dict invariants, no internal transitions, sibling names distinct, and no
-  `to_…`-named local events in nested scopes;
-* top level: dict invariants, no internal transitions, every `to_…`-named event is an automatic one
-  (`auto_transitions` is on and `_is_auto_transition` recognises it);
-* when `auto_transitions` is on, the automatic triggers are named `to_<state>`
-  (hierarchical machine, or `model_attribute = 'state'`). -/
+/-- well-formedness hypotheses of the markup round trip on a whole configuration (no exclusions):
+* the transition whitelist names `source`;
+* per state: dict invariants of the local events, sibling names distinct, no `to_…`-named local
+  events in nested scopes;
+* top level: dict invariants, state names distinct, and every `to_…`-named event is an automatic one
+  (`auto_transitions` is on and `_is_auto_transition` recognises it) — `to_…` names are reserved. -/
 def rtOK (wl : WL) (c : Cfg) : Bool :=
-  wl.tr.contains 0 && wl.tr.contains 1 &&
-  stsOK c.opts.ignore c.states && nodupB (names c.states) &&
-  eventsWF c.events && noInternal c.events &&
-  c.events.all (fun e => !isTo e.name || (c.opts.autoTransitions && isAuto c.states c.states e)) &&
-  (!c.opts.autoTransitions || c.hier || c.opts.modelAttribute.isNone)
+  wl.tr.contains 0 &&
+  stsOK c.states && nodupB (names c.states) && eventsWF c.events &&
+  c.events.all (fun e => !isTo e.name || (c.opts.autoTransitions && isAuto c.states c.states e))
 
 /-! ### reading a markup back -/
 
@@ -95,7 +86,7 @@ def pairs (evs : List Event) : List (EvName × Trans) :=
 def normT (t : Trans) : Trans :=
   { t with conds := (t.conds.filter (·.2)) ++ (t.conds.filter fun c => !c.2) }
 
-/-! ### witnesses (the configurations behind the open findings) -/
+/-! ### regression witnesses (the configurations behind the findings fixed in /repo) -/
 
 def leaf (n : Name) : St := .mk n [] [] [] .none false none [] []
 
@@ -132,22 +123,23 @@ def witnessAttr : Cfg :=
 
 /-! ### helper lemmas: export -/
 
-theorem exportSts_eq_map (wl : WL) (root : List St) (l : List St) :
-    exportSts wl root l = l.map (exportSt wl root) := by
+theorem exportSts_eq_map (wl : WL) (mi : Tri) (root : List St) (l : List St) :
+    exportSts wl mi root l = l.map (exportSt wl mi root) := by
   induction l with
   | nil => simp [exportSts]
   | cons s r ih => simp [exportSts, ih]
 
-theorem exportSts_length (wl : WL) (root l : List St) : (exportSts wl root l).length = l.length := by
+theorem exportSts_length (wl : WL) (mi : Tri) (root l : List St) :
+    (exportSts wl mi root l).length = l.length := by
   simp [exportSts_eq_map]
 
-theorem exportSt_children (wl : WL) (root : List St) (s : St) :
-    (exportSt wl root s).children = exportSts wl root s.children := by
+theorem exportSt_children (wl : WL) (mi : Tri) (root : List St) (s : St) :
+    (exportSt wl mi root s).children = exportSts wl mi root s.children := by
   cases s; simp [exportSt, MState.children, St.children]
 
-theorem mstAt_export (wl : WL) (root : List St) :
+theorem mstAt_export (wl : WL) (mi : Tri) (root : List St) :
     ∀ (pos : List Nat) (sts : List St),
-      mstAt (exportSts wl root sts) pos = (stAt sts pos).map (exportSt wl root)
+      mstAt (exportSts wl mi root sts) pos = (stAt sts pos).map (exportSt wl mi root)
   | [], _ => by simp [mstAt, stAt]
   | [i], sts => by simp [mstAt, stAt, exportSts_eq_map]
   | i :: j :: r, sts => by
@@ -158,7 +150,7 @@ theorem mstAt_export (wl : WL) (root : List St) :
     | some s =>
       simp only [Option.map_some]
       rw [exportSt_children]
-      exact mstAt_export wl root (j :: r) s.children
+      exact mstAt_export wl mi root (j :: r) s.children
 
 theorem exportEvents_eq_pairs (wl : WL) (scope root : List St) (evs : List Event) :
     exportEvents wl scope root evs
@@ -166,37 +158,37 @@ theorem exportEvents_eq_pairs (wl : WL) (scope root : List St) (evs : List Event
   simp only [exportEvents, pairs, List.map_flatMap, List.map_map]
   rfl
 
-theorem exportSt_fields (wl : WL) (root : List St) (s : St)
+theorem exportSt_fields (wl : WL) (mi : Tri) (root : List St) (s : St)
     (h0 : wl.st.contains 0 = true) (h1 : wl.st.contains 1 = true) (h2 : wl.st.contains 2 = true)
-    (h3 : wl.st.contains 3 = true) :
-    (exportSt wl root s).name = s.name ∧ (exportSt wl root s).onEnter = s.onEnter ∧
-    (exportSt wl root s).onExit = s.onExit ∧ (exportSt wl root s).final = s.final ∧
-    ((exportSt wl root s).ignore = some .yes ↔ s.ignore = .yes) ∧
-    ((exportSt wl root s).ignore = none ↔ s.ignore ≠ .yes) ∧
-    (exportSt wl root s).children = exportSts wl root s.children ∧
-    (s.children ≠ [] → (exportSt wl root s).initial = s.initial ∧
-      (exportSt wl root s).transitions = exportEvents wl s.children root s.events) := by
+    (h3 : wl.st.contains 3 = true) (h4 : wl.st.contains 4 = true) :
+    (exportSt wl mi root s).name = s.name ∧ (exportSt wl mi root s).onEnter = s.onEnter ∧
+    (exportSt wl mi root s).onExit = s.onExit ∧ (exportSt wl mi root s).onFinal = s.onFinal ∧
+    (exportSt wl mi root s).final = s.final ∧
+    (exportSt wl mi root s).ignore
+      = (if s.ignore = .yes then some .yes else if mi = .yes then some s.ignore else none) ∧
+    (exportSt wl mi root s).children = exportSts wl mi root s.children ∧
+    (s.children ≠ [] → (exportSt wl mi root s).initial = s.initial ∧
+      (exportSt wl mi root s).transitions = exportEvents wl s.children root s.events) := by
   cases s with
   | mk name onEnter onExit onFinal ignore final initial events children =>
     simp only [exportSt, MState.name, St.name, MState.onEnter, St.onEnter, MState.onExit, St.onExit,
-      MState.final, St.final, MState.ignore, St.ignore, MState.children, St.children, MState.initial,
-      St.initial, MState.transitions, St.events, keep, h0, h1, h2, h3, if_true, Bool.true_and]
-    refine ⟨trivial, trivial, trivial, trivial, ?_, ?_, trivial, ?_⟩
-    · cases ignore <;> simp [Tri.truthy]
-    · cases ignore <;> simp [Tri.truthy]
+      MState.onFinal, St.onFinal, MState.final, St.final, MState.ignore, St.ignore, MState.children,
+      St.children, MState.initial, St.initial, MState.transitions, St.events, keep, h0, h1, h2, h3, h4,
+      if_true, Bool.true_and]
+    refine ⟨trivial, trivial, trivial, trivial, trivial, ?_, trivial, ?_⟩
+    · cases ignore <;> cases mi <;> simp [Tri.truthy]
     · intro hne
       cases children with
       | nil => exact absurd rfl hne
       | cons a r => simp
 
 theorem exportSt_effIgnore (wl : WL) (root : List St) (mi : Tri) (s : St)
-    (h2 : wl.st.contains 2 = true) (h : ¬ (s.ignore = .no ∧ mi = .yes)) :
-    (exportSt wl root s).effIgnore mi = effIgnore mi s.ignore := by
+    (h2 : wl.st.contains 2 = true) :
+    (exportSt wl mi root s).effIgnore mi = effIgnore mi s.ignore := by
   cases s with
   | mk name onEnter onExit onFinal ignore final initial events children =>
-    simp only [St.ignore] at h
     simp only [exportSt, MState.effIgnore, MState.ignore, St.ignore, h2, Bool.true_and]
-    cases ignore <;> cases mi <;> simp_all [Tri.truthy, effIgnore]
+    cases ignore <;> cases mi <;> simp [Tri.truthy, effIgnore]
 
 theorem conds_true (l : List (Name × Bool)) :
     ((l.filter (·.2)).map (·.1)).map (fun c => (c, true)) = l.filter (·.2) := by
@@ -214,28 +206,29 @@ theorem conds_false (l : List (Name × Bool)) :
     obtain ⟨c, b⟩ := a
     cases b <;> simp_all
 
-theorem importTrans_export' (wl : WL) (n : EvName) (t : Trans)
-    (h0 : wl.tr.contains 0 = true) (h1 : wl.tr.contains 1 = true) (hd : t.dest ≠ none) :
-    importTrans (exportTrans wl n t) = some (n, normT { t with
-      prepare := keep wl.tr 2 t.prepare, before := keep wl.tr 3 t.before, after := keep wl.tr 4 t.after }) := by
-  cases hdest : t.dest with
-  | none => exact absurd hdest hd
-  | some d =>
-    simp only [importTrans, exportTrans, h0, h1, if_true, hdest, conds_true, conds_false, normT]
+/-- what `add_transition(**entry)` makes of an exported transition: destination and callbacks outside the
+whitelist are gone, conditions come before unless-conditions -/
+def normW (wl : WL) (t : Trans) : Trans :=
+  normT { t with dest := if wl.tr.contains 1 then t.dest else none, prepare := keep wl.tr 2 t.prepare,
+                 before := keep wl.tr 3 t.before, after := keep wl.tr 4 t.after }
+
+theorem importTrans_export' (wl : WL) (n : EvName) (t : Trans) (h0 : wl.tr.contains 0 = true) :
+    importTrans (exportTrans wl n t) = some (n, normW wl t) := by
+  simp only [importTrans, exportTrans, h0, if_true, conds_true, conds_false, normT, normW]
 
 theorem importTrans_export (wl : WL) (n : EvName) (t : Trans)
     (h0 : wl.tr.contains 0 = true) (h1 : wl.tr.contains 1 = true) (h2 : wl.tr.contains 2 = true)
-    (h3 : wl.tr.contains 3 = true) (h4 : wl.tr.contains 4 = true) (hd : t.dest ≠ none) :
+    (h3 : wl.tr.contains 3 = true) (h4 : wl.tr.contains 4 = true) :
     importTrans (exportTrans wl n t) = some (n, normT t) := by
-  rw [importTrans_export' wl n t h0 h1 hd]
-  simp only [keep, h2, h3, h4, if_true]
+  rw [importTrans_export' wl n t h0]
+  simp only [normW, keep, h1, h2, h3, h4, if_true]
 
 /-! ### helper lemmas: the dirty flag -/
 
 /-- invariant of a `MarkupMachine` instance built by `MM.new c0` -/
 def MM.Inv (wl : WL) (c0 : Cfg) (m : MM) : Prop :=
   (m.dirty = false →
-    m.cache.states = exportSts wl m.cfg.states m.cfg.states ∧
+    m.cache.states = exportSts wl m.cfg.opts.ignore m.cfg.states m.cfg.states ∧
     m.cache.transitions = exportEvents wl m.cfg.states m.cfg.states m.cfg.events ∧
     (∀ i, m.cfg.initial = some i → m.cache.initial = some i) ∧
     (∀ n, m.cfg.name = some n → m.cache.name = some n)) ∧
@@ -284,7 +277,7 @@ theorem MM.read_dirty (wl : WL) (m : MM) : (m.read wl).dirty = false := rfl
 theorem MM.current (wl : WL) (c0 : Cfg) (ops : List Op) :
     let m := (MM.new c0).run wl ops
     let r := (m.read wl).cache
-    r.states = exportSts wl m.cfg.states m.cfg.states ∧
+    r.states = exportSts wl m.cfg.opts.ignore m.cfg.states m.cfg.states ∧
     r.transitions = exportEvents wl m.cfg.states m.cfg.states m.cfg.events ∧
     r.models = m.cfg.models ∧
     (∀ i, m.cfg.initial = some i → r.initial = some i) ∧
@@ -343,11 +336,11 @@ theorem MM.inv2_run (wl : WL) (c0 : Cfg) (ops : List Op) :
 theorem MM.current_export (wl : WL) (c0 : Cfg) (ops : List Op)
     (hfix : ∀ c, ((MM.new c0).run wl ops).cfg = c →
       c.initial = c0.initial ∧ c.name = c0.name ∧ c.prepareEvent = c0.prepareEvent ∧
-      c.beforeSC = c0.beforeSC ∧ c.finalize = c0.finalize ∧ c.onException = c0.onException ∧
-      c.onFinal = c0.onFinal ∧ c.opts = c0.opts)
+      c.beforeSC = c0.beforeSC ∧ c.afterSC = c0.afterSC ∧ c.finalize = c0.finalize ∧
+      c.onException = c0.onException ∧ c.onFinal = c0.onFinal ∧ c.opts = c0.opts)
     (hpre : ∀ k c, ((MM.new c0).run wl (ops.take k)).cfg = c → c.initial = c0.initial ∧ c.name = c0.name) :
     (((MM.new c0).run wl ops).read wl).cache = exportMk wl ((MM.new c0).run wl ops).cfg := by
-  obtain ⟨f1, f2, f3, f4, f5, f6, f7, f8⟩ := hfix _ rfl
+  obtain ⟨f1, f2, f3, f4, f4', f5, f6, f7, f8⟩ := hfix _ rfl
   obtain ⟨a1, a2, a3, a4, a5, a6, a7, a8, a9, a10, a11, a12⟩ := MM.current wl c0 ops
   have hinv2 : MM.Inv2 c0 (((MM.new c0).run wl ops).read wl) := by
     have h0 : MM.Inv2 c0 ((MM.new c0).run wl ops) :=
@@ -374,7 +367,7 @@ theorem MM.current_export (wl : WL) (c0 : Cfg) (ops : List Op)
       · rw [h, ← f2]; exact hci
   cases r
   simp only [exportMk, refresh, convert, initMarkup, Markup.mk.injEq] at *
-  simp only [a1, a2, a3, a6, a7, a8, a9, a10, a11, a12, f3, f4, f5, f6, f7, f8, hi, hn, and_self]
+  simp only [a1, a2, a3, a6, a7, a8, a9, a10, a11, a12, f3, f4, f4', f5, f6, f7, f8, hi, hn, and_self]
 
 /-! ### helper lemmas: regrouping (`addAll` after `pairs`) -/
 
@@ -579,11 +572,6 @@ theorem pairs_addAll (evs : List Event) (h : eventsWF evs = true) :
 
 /-! ### helper lemmas: one scope's transitions through export + import -/
 
-/-- what `add_transition(**entry)` makes of an exported transition: callbacks outside the whitelist are
-gone, conditions come before unless-conditions -/
-def normW (wl : WL) (t : Trans) : Trans :=
-  normT { t with prepare := keep wl.tr 2 t.prepare, before := keep wl.tr 3 t.before, after := keep wl.tr 4 t.after }
-
 def normE (wl : WL) (e : Event) : Event :=
   ⟨e.name, e.trans.map fun kv => (kv.1, kv.2.map (normW wl))⟩
 
@@ -600,19 +588,19 @@ theorem filter_false_norm (l : List (Name × Bool)) :
 
 theorem exportTrans_normW (wl : WL) (n : EvName) (t : Trans) :
     exportTrans wl n (normW wl t) = exportTrans wl n t := by
-  simp only [exportTrans, normW, normT, keep_keep, filter_true_norm, filter_false_norm]
+  simp only [exportTrans, normW, normT, keep_keep, filter_true_norm, filter_false_norm, MTrans.mk.injEq,
+    true_and, and_true]
+  cases wl.tr.contains 1 <;> rfl
 
-theorem importTransL_map (wl : WL) (h0 : wl.tr.contains 0 = true) (h1 : wl.tr.contains 1 = true) :
-    ∀ (L : List (EvName × Trans)), (∀ p ∈ L, p.2.dest ≠ none) →
+theorem importTransL_map (wl : WL) (h0 : wl.tr.contains 0 = true) :
+    ∀ (L : List (EvName × Trans)),
       importTransL (L.map fun p => exportTrans wl p.1 p.2) = some (L.map fun p => (p.1, normW wl p.2)) := by
   intro L
   induction L with
-  | nil => intro _; rfl
+  | nil => rfl
   | cons p r ih =>
-    intro h
-    have hp := importTrans_export' wl p.1 p.2 h0 h1 (h p (List.mem_cons_self ..))
-    have hr := ih (fun q hq => h q (List.mem_cons_of_mem _ hq))
-    simp only [List.map_cons, importTransL, hp, hr, normW]
+    have hp := importTrans_export' wl p.1 p.2 h0
+    simp only [List.map_cons, importTransL, hp, ih]
 
 theorem pairsK_normE (wl : WL) (n : EvName) (kvs : List (Path × List Trans)) :
     pairsK n (kvs.map fun kv => (kv.1, kv.2.map (normW wl))) = (pairsK n kvs).map fun p => (p.1, normW wl p.2) := by
@@ -641,17 +629,6 @@ theorem EvWF_normE (wl : WL) (e : Event) (h : EvWF e) : EvWF (normE wl e) := by
     obtain ⟨t0, ht0, rfl⟩ := ht
     exact h2 kv0 hkv0 t0 ht0
 
-theorem noInternal_pairs (evs : List Event) (h : noInternal evs = true) : ∀ p ∈ pairs evs, p.2.dest ≠ none := by
-  intro p hp
-  simp only [pairs, List.mem_flatMap, List.mem_map] at hp
-  obtain ⟨e, he, kv, hkv, t, ht, rfl⟩ := hp
-  simp only [noInternal, List.all_eq_true] at h
-  have := h e he kv hkv t ht
-  intro hn
-  have hn' : t.dest = none := hn
-  rw [hn'] at this
-  exact Bool.noConfusion this
-
 theorem isAuto_of_not_isTo (scope root : List St) (e : Event) (h : isTo e.name = false) :
     isAuto scope root e = false := by
   unfold isAuto
@@ -664,13 +641,12 @@ theorem isTo_of_isAuto (scope root : List St) (e : Event) (h : isAuto scope root
   | false => rw [isAuto_of_not_isTo scope root e hn] at h; exact Bool.noConfusion h
 
 /-- import of the exported transitions of well-formed events `evs` on top of events `A` with other names -/
-theorem importEvents_pairs (wl : WL) (h0 : wl.tr.contains 0 = true) (h1 : wl.tr.contains 1 = true)
-    (A evs : List Event) (hwf : eventsWF evs = true) (hni : noInternal evs = true)
-    (hA : ∀ e ∈ evs, e.name ∉ A.map (·.name)) :
+theorem importEvents_pairs (wl : WL) (h0 : wl.tr.contains 0 = true)
+    (A evs : List Event) (hwf : eventsWF evs = true) (hA : ∀ e ∈ evs, e.name ∉ A.map (·.name)) :
     importEvents A ((pairs evs).map fun p => exportTrans wl p.1 p.2) = some (A ++ compact (evs.map (normE wl))) := by
   rw [eventsWF_iff] at hwf
   unfold importEvents
-  rw [importTransL_map wl h0 h1 _ (noInternal_pairs evs hni), Option.map_some, ← pairs_normE]
+  rw [importTransL_map wl h0 _, Option.map_some, ← pairs_normE]
   rw [addAll_events (evs.map (normE wl)) A (by rw [names_normE]; exact hwf.1)]
   · intro e he
     simp only [List.mem_map] at he
@@ -705,8 +681,8 @@ theorem exportEvents_of_not_isTo (wl : WL) (scope root : List St) (evs : List Ev
   simp [isAuto_of_not_isTo scope root e (hto e he)]
 
 /-- a nested scope: the local events come back, whatever the scope and the root are -/
-theorem rtEvents_nested (wl : WL) (h0 : wl.tr.contains 0 = true) (h1 : wl.tr.contains 1 = true)
-    (scope root : List St) (evs : List Event) (hwf : eventsWF evs = true) (hni : noInternal evs = true)
+theorem rtEvents_nested (wl : WL) (h0 : wl.tr.contains 0 = true)
+    (scope root : List St) (evs : List Event) (hwf : eventsWF evs = true)
     (hto : evs.all (fun e => !isTo e.name) = true) :
     ∃ evs', importEvents [] (exportEvents wl scope root evs) = some evs' ∧
       ∀ scope' root', exportEvents wl scope' root' evs' = exportEvents wl scope root evs := by
@@ -715,7 +691,7 @@ theorem rtEvents_nested (wl : WL) (h0 : wl.tr.contains 0 = true) (h1 : wl.tr.con
     have := List.all_eq_true.mp hto e he
     simpa using this
   refine ⟨compact (evs.map (normE wl)), ?_, ?_⟩
-  · rw [exportEvents_of_not_isTo wl scope root evs hto', importEvents_pairs wl h0 h1 [] evs hwf hni (by simp)]
+  · rw [exportEvents_of_not_isTo wl scope root evs hto', importEvents_pairs wl h0 [] evs hwf (by simp)]
     rfl
   · intro scope' root'
     rw [exportEvents_compact wl scope' root' evs hto', exportEvents_of_not_isTo wl scope root evs hto']
@@ -731,24 +707,26 @@ def ndTs : List St → Bool
   | s :: r => ndT s && ndTs r
 end
 
-theorem flag_rt (b : Bool) (mi ignore : Tri) (h : flagOK mi ignore = true) :
-    (if (b && ((if (b && ignore.truthy) = true then some Tri.yes else none).getD mi).truthy) = true
-      then some Tri.yes else none) = (if (b && ignore.truthy) = true then some Tri.yes else none) := by
-  cases b <;> cases mi <;> cases ignore <;> simp_all [flagOK, Tri.truthy]
+/-- the exported `ignore_invalid_triggers` entry of a state with flag `ignore` under machine flag `mi` -/
+def expFlag (b : Bool) (mi ignore : Tri) : Option Tri :=
+  if !ignore.truthy && mi.truthy then some ignore else if b && ignore.truthy then some .yes else none
+
+/-- the flag round-trips for every combination of state flag, machine flag and whitelist -/
+theorem flag_rt (b : Bool) (mi ignore : Tri) : expFlag b mi ((expFlag b mi ignore).getD mi) = expFlag b mi ignore := by
+  cases b <;> cases mi <;> cases ignore <;> rfl
 
 theorem isEmpty_of_names_eq (a b : List St) (h : names a = names b) : a.isEmpty = b.isEmpty := by
   cases a <;> cases b <;> simp_all [names]
 
 mutual
-theorem rtSt (wl : WL) (h0 : wl.tr.contains 0 = true) (h1 : wl.tr.contains 1 = true) (mi : Tri)
-    (root : List St) :
-    ∀ s : St, stOK mi s = true →
-      ∃ s', importSt mi (exportSt wl root s) = some s' ∧ (∀ root', exportSt wl root' s' = exportSt wl root s) ∧
-        s'.name = s.name ∧ ndT s' = true
+theorem rtSt (wl : WL) (h0 : wl.tr.contains 0 = true) (mi : Tri) (root : List St) :
+    ∀ s : St, stOK s = true →
+      ∃ s', importSt mi (exportSt wl mi root s) = some s' ∧
+        (∀ root', exportSt wl mi root' s' = exportSt wl mi root s) ∧ s'.name = s.name ∧ ndT s' = true
   | .mk name onEnter onExit onFinal ignore final initial events children, h => by
     simp only [stOK, Bool.and_eq_true] at h
-    obtain ⟨⟨⟨⟨⟨hflag, hwf⟩, hni⟩, hto⟩, hnd⟩, hch⟩ := h
-    obtain ⟨ch', hch1, hch2, hch3, hch4⟩ := rtSts wl h0 h1 mi root children hch
+    obtain ⟨⟨⟨hwf, hto⟩, hnd⟩, hch⟩ := h
+    obtain ⟨ch', hch1, hch2, hch3, hch4⟩ := rtSts wl h0 mi root children hch
     have hemp : ch'.isEmpty = children.isEmpty := isEmpty_of_names_eq _ _ hch3
     have hev : ∃ evs', importEvents [] (if children.isEmpty then [] else exportEvents wl children root events)
           = some evs' ∧ ∀ scope' root', (if children.isEmpty then [] else exportEvents wl scope' root' evs')
@@ -756,31 +734,32 @@ theorem rtSt (wl : WL) (h0 : wl.tr.contains 0 = true) (h1 : wl.tr.contains 1 = t
       cases children.isEmpty with
       | true => exact ⟨[], rfl, fun _ _ => rfl⟩
       | false =>
-        obtain ⟨evs', e1, e2⟩ := rtEvents_nested wl h0 h1 children root events hwf hni hto
+        obtain ⟨evs', e1, e2⟩ := rtEvents_nested wl h0 children root events hwf hto
         exact ⟨evs', e1, e2⟩
     obtain ⟨evs', hev1, hev2⟩ := hev
     refine ⟨.mk name (keep wl.st 1 onEnter) (keep wl.st 0 onExit) (keep wl.st 4 onFinal)
-      ((if (wl.st.contains 2 && ignore.truthy) = true then some Tri.yes else none).getD mi)
+      ((expFlag (wl.st.contains 2) mi ignore).getD mi)
       (wl.st.contains 3 && final) (if children.isEmpty then none else initial) evs' ch', ?_, ?_, ?_, ?_⟩
-    · simp only [exportSt, importSt, hch1, hev1]
+    · simp only [exportSt, importSt, hch1, hev1, expFlag]
     · intro root'
-      simp only [exportSt, keep_keep, hch2 root', hemp, flag_rt _ _ _ hflag, hev2 ch' root', MState.mk.injEq,
+      have hf := flag_rt (wl.st.contains 2) mi ignore
+      simp only [expFlag] at hf
+      simp only [exportSt, keep_keep, hch2 root', hemp, expFlag, hf, hev2 ch' root', MState.mk.injEq,
         true_and, and_true]
       refine ⟨?_, ?_⟩
       · cases wl.st.contains 3 <;> rfl
       · cases children.isEmpty <;> rfl
     · rfl
     · simp only [ndT, hch3, hnd, hch4, Bool.and_self]
-theorem rtSts (wl : WL) (h0 : wl.tr.contains 0 = true) (h1 : wl.tr.contains 1 = true) (mi : Tri)
-    (root : List St) :
-    ∀ l : List St, stsOK mi l = true →
-      ∃ l', importSts mi (exportSts wl root l) = some l' ∧
-        (∀ root', exportSts wl root' l' = exportSts wl root l) ∧ names l' = names l ∧ ndTs l' = true
+theorem rtSts (wl : WL) (h0 : wl.tr.contains 0 = true) (mi : Tri) (root : List St) :
+    ∀ l : List St, stsOK l = true →
+      ∃ l', importSts mi (exportSts wl mi root l) = some l' ∧
+        (∀ root', exportSts wl mi root' l' = exportSts wl mi root l) ∧ names l' = names l ∧ ndTs l' = true
   | [], _ => ⟨[], rfl, fun _ => rfl, rfl, rfl⟩
   | s :: r, h => by
     simp only [stsOK, Bool.and_eq_true] at h
-    obtain ⟨s', a1, a2, a3, a4⟩ := rtSt wl h0 h1 mi root s h.1
-    obtain ⟨r', b1, b2, b3, b4⟩ := rtSts wl h0 h1 mi root r h.2
+    obtain ⟨s', a1, a2, a3, a4⟩ := rtSt wl h0 mi root s h.1
+    obtain ⟨r', b1, b2, b3, b4⟩ := rtSts wl h0 mi root r h.2
     refine ⟨s' :: r', ?_, ?_, ?_, ?_⟩
     · simp only [exportSts, importSts, a1, b1]
     · intro root'; simp only [exportSts, a2 root', b2 root']
@@ -871,15 +850,14 @@ theorem hasState_of_walk (sts : List St) (p : Path) (h : walk sts p = true) : ha
   | [n], h => rw [walk_single] at h; exact h
   | n :: m :: q, h => simp only [hasState, h, Bool.or_self]
 
-/-- the events `add_states` / `_init_state` create are recognised as automatic in the machine they are in -/
+/-- the events `add_states` / `_init_state` create (named `to_<state>` or `to_<model_attribute>_<state>`)
+are recognised as automatic in the machine they are in -/
 theorem autoEvents_isAuto (hier : Bool) (attr : Option Name) (sts : List St)
-    (hname : (hier || attr.isNone) = true) (hn : nodupB (names sts) = true) (hnd : ndTs sts = true) :
+    (hn : nodupB (names sts) = true) (hnd : ndTs sts = true) :
     ∀ e ∈ autoEvents hier attr sts, isAuto sts sts e = true := by
   intro e he
   simp only [autoEvents, List.mem_map] at he
   obtain ⟨g, hg, rfl⟩ := he
-  have hnm : (if (!hier && attr.isSome) = true then EvName.toAttr g else EvName.to g) = EvName.to g := by
-    cases hier <;> cases attr <;> simp_all
   have hhas : hasState sts sts g = true := by
     cases hier with
     | true =>
@@ -892,7 +870,9 @@ theorem autoEvents_isAuto (hier : Bool) (attr : Option Name) (sts : List St)
       obtain ⟨n, hn', rfl⟩ := hg
       simp only [hasState]
       exact List.contains_iff_mem.mpr hn'
-  simp only [isAuto, hnm, List.length_map, names, hhas, Bool.and_true, beq_self_eq_true]
+  cases (!hier && attr.isSome) <;>
+    simp only [isAuto, Bool.false_eq_true, if_false, if_true, List.length_map, names, hhas, Bool.and_true,
+      beq_self_eq_true]
 
 /-! ### helper lemmas: the top level and the assembly -/
 
@@ -915,16 +895,10 @@ theorem eventsWF_filter (p : Event → Bool) (evs : List Event) (h : eventsWF ev
   intro e he
   exact h.2 e (List.mem_filter.mp he).1
 
-theorem noInternal_filter (p : Event → Bool) (evs : List Event) (h : noInternal evs = true) :
-    noInternal (evs.filter p) = true := by
-  simp only [noInternal, List.all_eq_true] at h ⊢
-  intro e he
-  exact h e (List.mem_filter.mp he).1
-
 /-- the top-level scope: on top of automatic events `A` of the rebuilt machine, the transitions of the
 non-automatic events come back -/
-theorem rtEvents_top (wl : WL) (h0 : wl.tr.contains 0 = true) (h1 : wl.tr.contains 1 = true)
-    (sts sts' : List St) (evs A : List Event) (hwf : eventsWF evs = true) (hni : noInternal evs = true)
+theorem rtEvents_top (wl : WL) (h0 : wl.tr.contains 0 = true)
+    (sts sts' : List St) (evs A : List Event) (hwf : eventsWF evs = true)
     (hto : ∀ e ∈ evs, isTo e.name = true → isAuto sts sts e = true)
     (hA : ∀ e ∈ A, isAuto sts' sts' e = true) :
     ∃ evs', importEvents A (exportEvents wl sts sts evs) = some evs' ∧
@@ -944,7 +918,7 @@ theorem rtEvents_top (wl : WL) (h0 : wl.tr.contains 0 = true) (h1 : wl.tr.contai
     rw [exportEvents_eq_pairs, hfilter]
   refine ⟨A ++ compact ((evs.filter (fun e => !isTo e.name)).map (normE wl)), ?_, ?_⟩
   · rw [hexp]
-    apply importEvents_pairs wl h0 h1 A _ (eventsWF_filter _ evs hwf) (noInternal_filter _ evs hni)
+    apply importEvents_pairs wl h0 A _ (eventsWF_filter _ evs hwf)
     intro e he hmem
     rw [List.mem_map] at hmem
     obtain ⟨a, ha, hn⟩ := hmem
@@ -957,8 +931,8 @@ theorem rtEvents_top (wl : WL) (h0 : wl.tr.contains 0 = true) (h1 : wl.tr.contai
 theorem exportMk_eq (wl : WL) (c : Cfg) :
     exportMk wl c =
       { name := c.name, initial := c.initial, prepareEvent := c.prepareEvent, beforeSC := c.beforeSC
-        afterSC := c.beforeSC, finalize := c.finalize, onException := c.onException, onFinal := c.onFinal
-        opts := c.opts, states := exportSts wl c.states c.states
+        afterSC := c.afterSC, finalize := c.finalize, onException := c.onException, onFinal := c.onFinal
+        opts := c.opts, states := exportSts wl c.opts.ignore c.states c.states
         transitions := exportEvents wl c.states c.states c.events, models := c.models } := by
   simp only [exportMk, refresh, convert, initMarkup, Markup.mk.injEq, and_true]
   constructor
@@ -969,25 +943,23 @@ theorem exportMk_eq (wl : WL) (c : Cfg) :
 theorem roundtrip (wl : WL) (c : Cfg) (h : rtOK wl c = true) :
     ∃ c', importMk c.hier (exportMk wl c) = some c' ∧ exportMk wl c' = exportMk wl c := by
   simp only [rtOK, Bool.and_eq_true] at h
-  obtain ⟨⟨⟨⟨⟨⟨⟨h0, h1⟩, hsts⟩, hnd⟩, hwf⟩, hni⟩, hto⟩, hattr⟩ := h
-  obtain ⟨sts', s1, s2, s3, s4⟩ := rtSts wl h0 h1 c.opts.ignore c.states c.states hsts
+  obtain ⟨⟨⟨⟨h0, hsts⟩, hnd⟩, hwf⟩, hto⟩ := h
+  obtain ⟨sts', s1, s2, s3, s4⟩ := rtSts wl h0 c.opts.ignore c.states c.states hsts
   have hA : ∀ e ∈ (if c.opts.autoTransitions then autoEvents c.hier c.opts.modelAttribute sts' else []),
       isAuto sts' sts' e = true := by
     cases hauto : c.opts.autoTransitions with
     | false => intro e he; simp at he
     | true =>
       simp only [if_true]
-      rw [hauto] at hattr
-      simp only [Bool.not_true, Bool.false_or] at hattr
-      exact autoEvents_isAuto c.hier c.opts.modelAttribute sts' hattr (s3 ▸ hnd) s4
+      exact autoEvents_isAuto c.hier c.opts.modelAttribute sts' (s3 ▸ hnd) s4
   have hto' : ∀ e ∈ c.events, isTo e.name = true → isAuto c.states c.states e = true := by
     intro e he ht
     have := List.all_eq_true.mp hto e he
     simp only [ht, Bool.not_true, Bool.false_or, Bool.and_eq_true] at this
     exact this.2
-  obtain ⟨evs', e1, e2⟩ := rtEvents_top wl h0 h1 c.states sts' c.events _ hwf hni hto' hA
+  obtain ⟨evs', e1, e2⟩ := rtEvents_top wl h0 c.states sts' c.events _ hwf hto' hA
   refine ⟨{ hier := c.hier, name := c.name, initial := c.initial, prepareEvent := c.prepareEvent
-            beforeSC := c.beforeSC, afterSC := c.beforeSC, finalize := c.finalize
+            beforeSC := c.beforeSC, afterSC := c.afterSC, finalize := c.finalize
             onException := c.onException, onFinal := c.onFinal, opts := c.opts, states := sts'
             events := evs', models := c.models }, ?_, ?_⟩
   · rw [exportMk_eq]
@@ -1011,6 +983,18 @@ theorem MM.current_export_stale :
      ((MM.new witnessStaleCfg).run WL.pinned witnessStaleOps).cfg.opts = witnessStaleCfg.opts) ∧
     ((((MM.new witnessStaleCfg).run WL.pinned witnessStaleOps).read WL.pinned).cache).initial = some 5 ∧
     (exportMk WL.pinned ((MM.new witnessStaleCfg).run WL.pinned witnessStaleOps).cfg).initial = none :=
+  ⟨⟨rfl, rfl, rfl⟩, rfl, rfl⟩
+
+/-- `after_state_change` replaced after construction: the cached dict keeps the constructor-time list
+(the machine-level lists are captured once), the export of a fresh machine shows the new one -/
+def witnessStaleAfterOps : List Op := [.setter (fun c => { c with afterSC := [9] })]
+
+theorem MM.current_export_stale_afterSC :
+    (((MM.new cfgBase).run WL.pinned witnessStaleAfterOps).cfg.beforeSC = cfgBase.beforeSC ∧
+     ((MM.new cfgBase).run WL.pinned witnessStaleAfterOps).cfg.initial = cfgBase.initial ∧
+     ((MM.new cfgBase).run WL.pinned witnessStaleAfterOps).cfg.opts = cfgBase.opts) ∧
+    ((((MM.new cfgBase).run WL.pinned witnessStaleAfterOps).read WL.pinned).cache).afterSC = [] ∧
+    (exportMk WL.pinned ((MM.new cfgBase).run WL.pinned witnessStaleAfterOps).cfg).afterSC = [9] :=
   ⟨⟨rfl, rfl, rfl⟩, rfl, rfl⟩
 
 end Mk
